@@ -25,6 +25,7 @@ RULE = (
     'SHA-1 of the case JSON.'
 )
 RULE += (' ' + 'Also generated: sequences of Buildables over unhashable callable instances (eq=True dataclasses with __call__).')
+RULE += (' ' + "Rounds 3-5: bound methods and the plain functions they wrap in generated order (class created per case); **kwargs entries named like positional-only / *args / **kwargs parameters; tags on the root's arguments; positional defaults None / 0; OrderedDict and list-subclass argument values; **kwargs configured in non-alphabetical order, with a clause on the order the callee receives them.")
 ASSUMPTIONS = [
     'inspect.signature of the universe callables is correct (CPython)',
     'reference evaluator refmodel.ref_build/form_call (about 60 lines) is correct',
